@@ -110,6 +110,7 @@ def focus(ctx, P):
 def run(ctx):
     P = 'C04'
     r_panic(ctx, P)
+    panics.calibration(ctx, P)
     r_loop(ctx, P)
     r_rec(ctx, P)
     focus(ctx, P)
@@ -123,10 +124,11 @@ def run(ctx):
     stream.eof_helper_not_leaked(ctx, P)
 
 
-def r_panic(ctx, P, only=None, floors=(1800, 1200, 150)):
+def r_panic(ctx, P, only=None, floors=(1800, 1400, 70)):
     """only: regex on the function path (another property re-using the inventory for its own modules)."""
     base = panics.load_baseline()
     base_guards = panics.load_baseline_guards()
+    field_ty = panics.field_types(ctx.f)
     ratchet = 0
     tot = 0
     by_tactic = collections.Counter()
@@ -148,7 +150,7 @@ def r_panic(ctx, P, only=None, floors=(1800, 1200, 150)):
         for key, i, kind, detail, t in ks:
             tot += 1
             seen.add(key)
-            d = panics.discharge(b, i, kind, detail, t, defs, cmps, dom)
+            d = panics.discharge(b, i, kind, detail, t, defs, cmps, dom, field_ty)
             if d:
                 by_tactic[d] += 1
                 continue
